@@ -10,6 +10,10 @@ META = {
     'level': 'other',
     'configs': {'quick': ['default'], 'thorough': ['default', 'norayon', 'default_nodebug']},
     'rules': {
+        'R8': 'both sides stop at the right time (C17.R2, C17.R3): candidates reach each builder in order of true distance — leaf key and envelope bound are the same squared distance — '
+              'otherwise one cell can terminate before it was cut by a neighbour whose own cell is cut by it: a face without its reciprocal',
+        'R9': 'with periodic boundaries the start box of a cell contains its whole periodic cell (C02.R3: lower <= A - W/2, upper >= A + 3W/2 on every active axis): a start box that is '
+              'too small cuts cells with box walls, which have no reciprocal face',
         'R7': 'both sides are cut against the same candidate set (C01.R1): the builder hands every item of the candidate stream — including images of its own generator — to the '
               'clip routine unless the termination test ends the loop; a candidate filtered on one side only leaves a face without its reciprocal',
         'R1': 'construction table: a VoronoiFace is created for plane k of constructed cell i  <=>  V and (not(RS and SN) or right > i or (mask present and not mask[right])), '
@@ -35,7 +39,7 @@ def run(ctx):
     for cfg in ctx.configs_used:
         F = ctx.facts(cfg)
         sfx = '' if cfg == 'default' else '@' + cfg
-        for fn in (r1, r2, r3, r4, r5, r6, r7):
+        for fn in (r1, r2, r3, r4, r5, r6, r7, r8, r9):
             rule = 'C03.' + fn.__name__.upper()
             ctx.guarded(rule, 'evaluate' + sfx, lambda: fn(ctx, F, rule, sfx))
 
@@ -325,3 +329,14 @@ def r6(ctx, F, rule, sfx):
 def r7(ctx, F, rule, sfx):
     from . import c01
     c01.r1(ctx, F, rule, sfx)
+
+
+def r8(ctx, F, rule, sfx):
+    from . import c17
+    c17.r2(ctx, F, rule, sfx)
+    c17.r3(ctx, F, rule, sfx)
+
+
+def r9(ctx, F, rule, sfx):
+    from . import c02
+    c02.r3(ctx, F, rule, sfx)
